@@ -6,7 +6,9 @@ of the mutual block.
 -/
 import DafRel.Lemmas.SelectSound
 import DafRel.Lemmas.NoTriv
-import DafRel.Lemmas.Backtrack
+import DafRel.Lemmas.ApplySpec
+import DafRel.Lemmas.Commute
+import DafRel.Lemmas.Build
 import DafRel.Lemmas.JoinSound
 
 namespace DafRel
